@@ -90,7 +90,7 @@ def args_of(opts):
     if opts.get('xml'):
         args += ['--xml', opts['xml']]
     for p in opts.get('ignore_threads') or ():
-        args += ['--ignore-new-thread', p]
+        args += ['--ignore-new-thread=' + p]
     args += list(opts.get('extra') or ())
     return args
 
